@@ -5,10 +5,11 @@
     the data passes through [alloc_guard], which yields [Blowup] unless the
     count is bounded by the bytes that remain.  The theorems say none of the
     three can happen, for every codec tree and every byte string.
+    The same is proved for decoding through a Descriptor (C04_descriptor_walk).
     PARTIAL: wall-clock promptness and the real allocator are runtime facts
-    (observed by the harness); totality of the Descriptor walk is decided by
-    the correspondence and the native no-panic check, not yet by a theorem. *)
-From Plenc Require Import Base Varint Wire JsonAny Codec Registry CorrCore DecBase JsonDecProofs DecProofs.
+    (observed by the harness). *)
+From Plenc Require Import Base Varint Wire JsonAny Codec Registry CorrCore DecBase JsonDecProofs DecProofs
+  Descriptor WalkTotal.
 Open Scope N_scope.
 
 (** the tree [c] is good for inputs shorter than [d]: [okd d c] only restricts
@@ -41,6 +42,19 @@ Theorem C04_json : forall data wt prior,
 Proof. exact json_dec_total. Qed.
 Print Assumptions C04_json.
 
+(** decoding through a Descriptor: for every descriptor whose slice nodes carry
+    their element descriptor ([dwf]; a slice node without one makes the Go code
+    index an empty list), walking any byte string returns success or an error -
+    never Panic / Hang - and never reports consuming more than it was given *)
+Theorem C04_descriptor_walk : forall d, dwf d -> forall data, wgood (walk d data) (len data).
+Proof. exact walk_total. Qed.
+Print Assumptions C04_descriptor_walk.
+
+(** ... in particular for the Descriptor of every codec plenc builds *)
+Theorem C04_descriptor_walk_codec : forall c d data, descriptor_of c = Ok d -> wgood (walk d data) (len data).
+Proof. exact walk_total_codec. Qed.
+Print Assumptions C04_descriptor_walk_codec.
+
 (** Skip (used for unknown fields) is total and bounded: see C18_skip_total /
     C18_skip_bounded. *)
 
@@ -49,5 +63,6 @@ Print Assumptions C04_json.
 Example C04_ex :
   let c := CStruct [] 3 [mkfld 0 1 [] (CSliceLen CString); mkfld 1 2 [] (CMap (CInt 64) (CPtr (CTime false)));
                          mkfld 2 3 [] (CSliceVar (CUint 8))] in
-  nobottom c = true /\ unmarshal c [11; 255; 255; 255; 255; 15] (zero c) = Err /\ unmarshal c [26; 1; 128] (zero c) = Err.
-Proof. vm_compute. repeat split; reflexivity. Qed.
+  nobottom c = true /\ unmarshal c [11; 255; 255; 255; 255; 15] (zero c) = Err /\ unmarshal c [26; 1; 128] (zero c) = Err
+  /\ match descriptor_of c with Ok d => dwf d /\ w_out (walk d [11; 255; 255; 255; 255; 15]) = Err | _ => False end.
+Proof. vm_compute. repeat split; try reflexivity; discriminate. Qed.
